@@ -218,13 +218,13 @@ class C10(PropBase):
                 out.append("0")
             return out
 
-        nsmall = 6 if quick else 40
+        nsmall = 6 if quick else 20
         for fno in range(nsmall):
             pbad = [0, 0, 5][rng.below(3)]
             lines = G.gen_lines(rng, 2 + rng.below(5 if quick else 12), pbad=pbad)
             data = G.join(rng, lines, eol_mode=fno % 3, final_nl=(fno % 4 != 3))
-            if len(data) > (400 if quick else 1500):
-                data = data[:(400 if quick else 1500)]
+            if len(data) > (400 if quick else 1000):
+                data = data[:(400 if quick else 1000)]
             n = len(data)
             add_s("stream-empty-first", data, [], ["0", "0"])
             add_s("stream-fail-first", data, [], ["E"])
